@@ -36,6 +36,8 @@ structure Blk where
   parent : Nat
   height : Nat
   invalid : Bool
+  /-- embedded P-Chain context (`GetContext().PChainHeight`), `none` = nil -/
+  pctx : Option Nat := none
 deriving DecidableEq, Repr, Inhabited
 
 /-- inner chain `Output`: the block and the ids executed up to and including it -/
@@ -52,7 +54,7 @@ deriving DecidableEq, Repr, Inhabited
 
 /-- marker the logging chain uses for the state of an empty (nil) parent output -/
 def nilMark : Nat := 999999999
-def nilBlk : Blk := ⟨nilMark, nilMark, 0, false⟩
+def nilBlk : Blk := ⟨nilMark, nilMark, 0, false, none⟩
 
 /-- logging chain `VerifyBlock(parent, block)` -/
 def chainVerify (po : Option Out) (b : Blk) : Option Out :=
@@ -65,12 +67,13 @@ def chainAccept (_pa : Option Acc) (o : Option Out) : Acc :=
   | some o => ⟨o.blk, o.st⟩
   | none => ⟨nilBlk, []⟩
 
-/-- logging chain `BuildBlock(parent)`: child of the parent output, id chosen by the harness -/
-def chainBuild (po : Option Out) (newId : Nat) : Option (Blk × Out) :=
+/-- logging chain `BuildBlock(blockContext, parent)`: child of the parent output embedding the
+given P-Chain context, id chosen by the harness -/
+def chainBuild (po : Option Out) (newId : Nat) (c : Option Nat) : Option (Blk × Out) :=
   match po with
   | none => none
   | some p =>
-    let b : Blk := ⟨newId, p.blk.id, p.blk.height + 1, false⟩
+    let b : Blk := ⟨newId, p.blk.id, p.blk.height + 1, false, c⟩
     some (b, ⟨b, p.st ++ [newId]⟩)
 
 /-- `StatefulBlock` -/
@@ -236,10 +239,13 @@ def init (cacheCap parsedCap window : Nat) (g : Blk) (ready : Bool) : State :=
   let s := s.setLastAccepted 0
   if ready then s.emit (.nAccepted ⟨g, [g.id]⟩) else s.emit (.nPreAccepted g)
 
+/-- `verifyPChainCtx(provided, inner)`: both nil, or both present with equal heights -/
+def ctxOK (provided inner : Option Nat) : Bool := provided == inner
+
 inductive Op where
-  | build (newId : Nat)
+  | build (newId : Nat) (c : Option Nat)
   | parse (b : Blk)
-  | verify (h : Nat)
+  | verify (h : Nat) (c : Option Nat)
   | accept (h : Nat)
   | reject (h : Nat)
   | pref (id : Nat)
@@ -265,13 +271,13 @@ inductive Res where
   | out (o : Out)
 deriving DecidableEq, Repr
 
-/-- `VM.buildBlock` -/
-def build (s : State) (newId : Nat) : State × Res :=
+/-- `VM.buildBlock` (`BuildBlock` = nil context, `BuildBlockWithContext`) -/
+def build (s : State) (newId : Nat) (c : Option Nat) : State × Res :=
   let f := s.getBlock s.preferred
   match s.view f with
   | none => (s, .err "notfound")
   | some p =>
-    match chainBuild p.out newId with
+    match chainBuild p.out newId c with
     | none => (s.emit (.cBuild p.out none), .err "build")
     | some (b, o) =>
       let s1 := (s.emit (.cBuild p.out (some o))).alloc ⟨b, true, some o, false, none⟩
@@ -294,16 +300,18 @@ def parse (s : State) (b : Blk) : State × Res :=
     | (s, some h) => (s, .handle h)
     | (s, none) => (s, .err "notfound")
 
-/-- `StatefulBlock.verifyWithContext` (nil P-chain contexts) -/
-def verify (s : State) (h : Nat) : State × Res :=
+/-- `StatefulBlock.verifyWithContext(pChainCtx)` (`Verify` = nil context) -/
+def verify (s : State) (h : Nat) (c : Option Nat) : State × Res :=
   let o := s.obj h
   if !s.ready then (s.vbSet o.blk.id h, .ok)
-  else if o.verified then (s.vbSet o.blk.id h, .ok)
+  else if o.verified then
+    (if ctxOK c o.blk.pctx then (s.vbSet o.blk.id h, .ok) else (s, .err "ctx"))
   else
     match s.view (s.getBlock o.blk.parent) with
     | none => (s, .err "notfound")
     | some p =>
       if !p.verified then (s, .err "parent")
+      else if !ctxOK c o.blk.pctx then (s, .err "ctx")
       else
         let r := chainVerify p.out o.blk
         let s := s.emit (.cVerify p.out o.blk r)
@@ -490,9 +498,9 @@ def ciPref (s : State) : Res :=
 def step (s : State) (op : Op) : State × Res :=
   if s.crashed then (s, .err "dead") else
   match op with
-  | .build n => build s n
+  | .build n c => build s n c
   | .parse b => parse s b
-  | .verify h => if h < s.nobj then verify s h else (s, .err "bad-handle")
+  | .verify h c => if h < s.nobj then verify s h c else (s, .err "bad-handle")
   | .accept h => if h < s.nobj then accept s h else (s, .err "bad-handle")
   | .reject h => if h < s.nobj then reject s h else (s, .err "bad-handle")
   | .pref id => ({ s with preferred := id }, .ok)
@@ -542,8 +550,8 @@ def State.pending (s : State) : Nat := s.queue.length + (if s.inflight.isSome th
 /-- the calls a snowman engine may make in the current state (`EngineOK` = every call of the
 sequence satisfies this) -/
 def pre (s : State) (e : Eng) : Op → Bool
-  | .build _ => e.prefOK s s.preferred
-  | .verify h =>
+  | .build _ _ => e.prefOK s s.preferred
+  | .verify h _ =>
     let b := (s.obj h).blk
     h < s.nobj && !e.processing.contains h && !e.decided.contains b.id && !(e.procIds s).contains b.id &&
     ((b.parent == e.lastAcc.id && b.height == e.lastAcc.height + 1) ||
@@ -565,7 +573,7 @@ def pre (s : State) (e : Eng) : Op → Bool
 /-- the engine's bookkeeping after a call returned `r` (`s` is the VM state before the call) -/
 def Eng.upd (e : Eng) (s : State) (op : Op) (r : Res) : Eng :=
   match op, r with
-  | .verify h, .ok =>
+  | .verify h _, .ok =>
     { e with processing := e.processing ++ [h],
              verifs := if s.ready && !(s.obj h).verified then e.verifs ++ [(s.obj h).blk] else e.verifs }
   | .accept h, .ok =>
